@@ -156,7 +156,7 @@ def sample_surface(
     """
     assert mesh.is_triangular()
     NF = len(mesh.faces)
-    areas = face_area(mesh, persistent=False).as_array()
+    areas = np.atleast_1d(face_area(mesh, persistent=False).as_array()) # as_array squeezes a single face to a 0-d array
     areas /= np.sum(areas)
     sampled_pts = np.zeros((n_pts,3))
     
